@@ -51,6 +51,20 @@ Theorem C10_write_reports_all : forall vers cbc len, uconn_write vers cbc len = 
 Proof. exact uconn_write_all. Qed.
 Print Assumptions C10_write_reports_all.
 
+(* A CertificateRequest (optional client authentication) in the flight changes nothing: the conditional holds verbatim for
+   flights that carry one, and the client (which has no certificate) answers with an empty Certificate message. Whether the
+   transcript still verifies with the extra message - also when the server certificate arrives compressed - is part of
+   f_crypto_ok and is exercised by the runs (clientauth, clientauth-certcomp, clientauth-hrr). *)
+Theorem C10_holds_with_certificate_request : forall fixed e v ks m w fl creq,
+  c10_cond fixed e v ks m w fl = true -> compliant e m w fl = true ->
+  exists st, client_run10q fixed e v ks fl creq = Complete st /\ cs_suite st = h_suite (f_sh fl)
+             /\ client_cert_reply creq = (if creq then Some 0 else None).
+Proof.
+  intros fixed e v ks m w fl creq H C. destruct (c10_holds_if fixed e v ks m w fl H C) as (st & R & S & _).
+  exists st. repeat split; assumption.
+Qed.
+Print Assumptions C10_holds_with_certificate_request.
+
 (* Before the repair the full statement failed already on a server selecting Firefox's second share ... *)
 Theorem C10_before_fix_refuted : ~ C10_full false.
 Proof. exact C10_full_refuted_unfixed. Qed.
